@@ -55,6 +55,18 @@ def scenarios():
             {"op": "alloc_ranges", "key": "sts_ns1_web_web-1", "subnet": "10.2.0.0/24",
              "ranges": [["10.101.0.2~10.101.0.3"], ["10.101.0.2~10.101.0.3"], ["10.101.0.2~10.101.0.3"]], "attr": A0},
             {"op": "alloc_ranges", "key": "sts_ns1_web_web-1", "subnet": "10.7.0.0/24", "ranges": [["10.101.0.5"]], "attr": A0}]))
+    # a multi-IP key released in one ReleaseIPs call, the delete failing at every index (and the retry afterwards)
+    for k in (-1, 0, 1, 2):
+        S.append(("multi-ip-release-fault-%d" % k, [
+            conf_op([P2, P1]),
+            {"op": "alloc_ranges", "key": "sts_ns1_web_web-0", "subnet": "10.2.0.0/24",
+             "ranges": [["10.101.0.2"], ["10.101.0.4~10.101.0.5"], ["10.101.0.9"]], "attr": A0, "fault": -1},
+            {"op": "release_ips", "m": {"10.101.0.2": "sts_ns1_web_web-0", "10.101.0.4": "sts_ns1_web_web-0", "10.101.0.9": "sts_ns1_web_web-0"},
+             "fault": k},
+            {"op": "release_ips", "m": {"10.101.0.2": "sts_ns1_web_web-0", "10.101.0.4": "sts_ns1_web_web-0", "10.101.0.9": "sts_ns1_web_web-0"},
+             "fault": -1},
+            {"op": "alloc_specific", "key": "sts_ns1_web_web-1", "ip": "10.101.0.2", "attr": A0, "fault": -1},
+            {"op": "restart"}]))
     # reload sequences: shrink, move an IP to another pool, drop a pool, with allocations in place
     P2s = copy.deepcopy(P2)
     P2s["ranges"] = [[ipamgen.s2ip("10.101.0.3"), ipamgen.s2ip("10.101.0.5")]]
@@ -169,7 +181,7 @@ def run(ctx, focus, theorems_module, theorems, refuted, kinds=None, nrandom=(120
     nb = nfault_bases[0] if ctx.quick else nfault_bases[1]
     variants, vlabels = [], []
     bases = [i for i in range(len(hists)) if not any(o.get("during_list") for o in hists[i])]
-    for i in bases[:len(scenarios()) - 3] + bases[len(scenarios()):len(scenarios()) + nb]:
+    for i in bases[:len(scenarios()) - 1] + bases[len(scenarios()):len(scenarios()) + nb]:
         base_clean = [dict(o, fault=-1) if "fault" in o else o for o in hists[i]]
         clean_obs = ctx.harness("ipam", [strip(base_clean)])[0]
         for v in fault_variants(base_clean, clean_obs.get("steps") or []):
